@@ -101,5 +101,81 @@ def main_single_slack():
     sys.exit(1 if fails else 0)
 
 
+def main_zip_machines():
+    """voltage dependent loads at the bus of an ext_grid / of a gen whose voltage is not 1 p.u."""
+    fails = []
+    for numba in (True, False):
+        net = pp.create_empty_network()
+        b = pp.create_buses(net, 4, 20.)
+        pp.create_ext_grid(net, b[0], vm_pu=1.05)
+        for f, t in ((0, 1), (1, 2), (2, 3)):
+            pp.create_line_from_parameters(net, b[f], b[t], 5., 0.12, 0.11, 250., 0.6)
+        pp.create_gen(net, b[1], p_mw=1., vm_pu=1.04)
+        pp.create_load(net, b[0], 2., 1., const_z_p_percent=100., const_z_q_percent=100.)
+        pp.create_load(net, b[1], 2., 1., const_z_p_percent=60., const_i_p_percent=20., const_z_q_percent=100.)
+        pp.create_load(net, b[2], 3., 1.)
+        pp.create_load(net, b[3], 4., 1., const_z_p_percent=100., const_z_q_percent=100.)
+        pp.runpp(net, numba=numba)
+        for m in balance(net):
+            fails.append(f"numba={numba}: {m}")
+    for f in fails:
+        print("REPRODUCED:", f)
+    if not fails:
+        print("not reproduced: nodal balance holds with voltage dependent loads at machine buses")
+    sys.exit(1 if fails else 0)
+
+
+def main_zip_sgen():
+    """a voltage dependent load and an sgen at one bus"""
+    net = pp.create_empty_network()
+    b = pp.create_buses(net, 3, 20.)
+    pp.create_ext_grid(net, b[0], vm_pu=1.0)
+    pp.create_line_from_parameters(net, b[0], b[1], 8., 0.12, 0.11, 250., 0.6)
+    pp.create_line_from_parameters(net, b[1], b[2], 8., 0.12, 0.11, 250., 0.6)
+    pp.create_load(net, b[2], 4., 1., const_z_p_percent=100., const_z_q_percent=100.)
+    pp.create_sgen(net, b[2], 1.5, 0.3)
+    pp.runpp(net)
+    fails = balance(net)
+    for f in fails:
+        print("REPRODUCED: constant-impedance load and sgen at one bus:", f)
+    if not fails:
+        print("not reproduced: nodal balance holds with a voltage dependent load next to an sgen")
+    sys.exit(1 if fails else 0)
+
+
+def main_zip_fused():
+    """two busbar sections fused by a closed bus-bus switch, a constant-impedance load on one, a constant-power load on the other"""
+    fails = []
+    net = pp.create_empty_network()
+    b = pp.create_buses(net, 4, 20.)
+    pp.create_ext_grid(net, b[0], vm_pu=1.0)
+    pp.create_line_from_parameters(net, b[0], b[1], 8., 0.12, 0.11, 250., 0.6)
+    pp.create_line_from_parameters(net, b[1], b[2], 8., 0.12, 0.11, 250., 0.6)
+    pp.create_switch(net, b[2], b[3], et="b", closed=True)
+    pp.create_load(net, b[2], 4., 1., const_z_p_percent=100., const_z_q_percent=100.)
+    pp.create_load(net, b[3], 2., 1.)
+    pp.runpp(net)
+    taken = net.res_load.p_mw.sum(), net.res_load.q_mvar.sum()
+    delivered = -net.res_line.p_to_mw.at[1], -net.res_line.q_to_mvar.at[1]
+    if abs(taken[0] - delivered[0]) > 1e-5 or abs(taken[1] - delivered[1]) > 1e-5:
+        fails.append(f"fused busbar sections: the loads report {taken[0]:.6f} MW / {taken[1]:.6f} Mvar, the line delivers "
+                     f"{delivered[0]:.6f} / {delivered[1]:.6f}")
+    for f in fails:
+        print("REPRODUCED:", f)
+    if not fails:
+        print("not reproduced: nodal balance holds with voltage dependent loads on fused busbar sections")
+    sys.exit(1 if fails else 0)
+
+
+def main_zip_all():
+    codes = []
+    for fn in (main_zip, main_zip_machines):
+        try:
+            fn()
+        except SystemExit as e:
+            codes.append(e.code or 0)
+    sys.exit(1 if 1 in codes else max(codes + [0]))
+
+
 if __name__ == "__main__":
-    {"main": main, "zip": main_zip, "single_slack": main_single_slack}[sys.argv[1] if len(sys.argv) > 1 else "main"]()
+    {"main": main, "zip": main_zip, "single_slack": main_single_slack, "zip_machines": main_zip_machines}[sys.argv[1] if len(sys.argv) > 1 else "main"]()
